@@ -57,7 +57,11 @@ func runOne(sc Scenario, limitFactor int) runOut {
 	cmd := exec.CommandContext(ctx, exe, "--child", string(js))
 	var so, se bytes.Buffer
 	cmd.Stdout, cmd.Stderr = &so, &se
-	cmd.Env = append(os.Environ(), "GOMAXPROCS=4")
+	procs := sc.Procs
+	if procs <= 0 {
+		procs = 4
+	}
+	cmd.Env = append(os.Environ(), fmt.Sprintf("GOMAXPROCS=%d", procs))
 	t0 := time.Now()
 	err = cmd.Run()
 	out.WallMs = time.Since(t0).Milliseconds()
@@ -151,6 +155,13 @@ func oracle(o runOut) (fs []failure) {
 			tag, sc.NatMs, watchMs(sc), r.StopReturned, r.StopMs, r.StallMs, r.WaitDump)})
 	} else if !r.StopReturned {
 		fs = append(fs, failure{"stop-not-returning:" + sc.Kind, fmt.Sprintf("%s natTimeout=%dms: Stop has not returned after %d ms, relay goroutines still busy: %s", tag, sc.NatMs, r.StopMs, r.WaitDump)})
+	}
+	// resources owned by the upstream client session (keep-alive goroutine, TCP control connection) are released on
+	// every init-abort and tear-down path: seen from the harness SOCKS5 server (a control connection it never closes
+	// is still open 5 s of effective time after Stop returned) and in the child's goroutine dump
+	if r.StopReturned && (r.CtrlOpen > 0 || r.ClientSessionGoroutines > 0) {
+		fs = append(fs, failure{"client-session-leak:" + sc.Kind, fmt.Sprintf("%s upstream=%s GOMAXPROCS=%d release ok=%v at %+d ms: after Stop returned %d of %d SOCKS5 control connections were never closed by the relay, %d client-session goroutines alive: %s",
+			tag, sc.Upstream, sc.Procs, sc.ReleaseOK, sc.ReleaseMs, r.CtrlOpen, r.CtrlEstablished, r.ClientSessionGoroutines, r.ClientSessionDump)})
 	}
 	// neither goroutines nor sockets leak
 	if r.StopReturned {
@@ -306,7 +317,7 @@ func (e *engine) evaluate(o runOut, fails []failure) error {
 		ks = append(ks, k+"="+obs[k])
 	}
 	sort.Strings(ks)
-	sig := fmt.Sprintf("%s%s %s/%s/%s nat=%d c=%d echo=%v rel=%v@%d | %s", sc.Kind, sc.Unpack, sc.Server, sc.Batch, sc.Upstream, sc.NatMs, sc.Clients, sc.Echo, sc.ReleaseOK, sc.ReleaseMs, strings.Join(ks, " "))
+	sig := fmt.Sprintf("%s%s %s/%s/%s nat=%d c=%d echo=%v rel=%v@%d p=%d | %s", sc.Kind, sc.Unpack, sc.Server, sc.Batch, sc.Upstream, sc.NatMs, sc.Clients, sc.Echo, sc.ReleaseOK, sc.ReleaseMs, sc.Procs, strings.Join(ks, " "))
 	nontrivial := o.Crash == "" && o.Res.Err == "" && (o.Res.Started > 0 || o.Res.InitFailures > 0)
 	rep.Case(sig, nontrivial)
 	rep.Count("kind=" + sc.Kind)
@@ -428,6 +439,8 @@ func generate(r *common.Rng, n int, search bool, thorough bool) []Scenario {
 			after := []int{1, 5, 150}
 			any := []int{-20, -5, 0, 1, 5, 150}
 			add(Scenario{Kind: "stop-init", Server: v.server, Batch: v.batch, NatMs: natMsFor(v, "stop-init", rr), Upstream: "socks5-hold", ReleaseOK: true, ReleaseMs: after[rr.Intn(3)], Clients: rr.Range(1, 2)})
+			// the same on one P: a goroutine the client session has just spawned has not run yet when the init-abort path closes the session
+			add(Scenario{Kind: "stop-init", Server: v.server, Batch: v.batch, NatMs: natMsFor(v, "stop-init", rr), Upstream: "socks5-hold", ReleaseOK: true, ReleaseMs: after[rr.Intn(3)], Clients: rr.Range(1, 3), Procs: 1})
 			if (i+round)%2 == 0 {
 				add(Scenario{Kind: "stop-init", Server: v.server, Batch: v.batch, NatMs: natMsFor(v, "stop-init", rr), Upstream: "socks5-hold", ReleaseOK: true, ReleaseMs: []int{-20, -5, 0}[rr.Intn(3)], Clients: rr.Range(1, 2)})
 			} else {
@@ -485,7 +498,7 @@ func main() {
 			}
 		}
 	} else {
-		scs = generate(common.NewRng(o.Seed), o.Budget(44, 600), o.Search, o.Thorough())
+		scs = generate(common.NewRng(o.Seed), o.Budget(50, 600), o.Search, o.Thorough())
 	}
 	if err == nil {
 		par := 5
